@@ -60,6 +60,14 @@ def double(u):
     return 2.0 * u
 
 
+def times_ten(x):
+    return x * 10
+
+
+def same_value(x):
+    return x
+
+
 class World:
     """deterministic from (seed, stream, i); `plan` fixes the trees"""
 
@@ -81,19 +89,22 @@ class World:
         self.d1.add_component(np.array([float(rng.randint(0, 4)) for _ in range(n1)]).reshape(shape1), 'w')
         d1 = self.d1
         self.datas = [d0, d1]
-        self.dc = DataCollection([d0, d1])
-        self.links = [LinkSame(d0.id['x'], d1.id['u']),
-                      ComponentLink([d1.id['w']], d0.id['y'], using=double),
-                      LinkSame(d0.id['k'], d1.id['w'])]
-        self.pixel_links = None
+        # a third dataset that only serves as a relay: x -> (x10) -> f.z -> e.u is a second, longer route to e.u that gives
+        # other values than the direct links d.x -> e.u ('direct1' one way, link 0 both ways)
+        self.d2 = Data(label='f')
+        self.d2.add_component(np.zeros(3), 'z')
+        self.dc = DataCollection([d0, d1, self.d2])
+        self.links = {0: LinkSame(d0.id['x'], d1.id['u']),
+                      1: ComponentLink([d1.id['w']], d0.id['y'], using=double),
+                      2: LinkSame(d0.id['k'], d1.id['w']),
+                      'chainA': ComponentLink([d0.id['x']], self.d2.id['z'], using=times_ten),
+                      'chainB': ComponentLink([self.d2.id['z']], d1.id['u']),
+                      'direct1': ComponentLink([d0.id['x']], d1.id['u'], using=same_value)}
         if same:
-            self.pixel_links = [LinkSame(a, b) for a, b in zip(d0.pixel_component_ids, d1.pixel_component_ids)]
+            self.links['pixel'] = [LinkSame(a, b) for a, b in zip(d0.pixel_component_ids, d1.pixel_component_ids)]
         self.active_links = set()
         for k in plan.get('links0', []):
-            if k == 'pixel':
-                self.dc.add_link(self.pixel_links)
-            else:
-                self.dc.add_link(self.links[k])
+            self.dc.add_link(self.links[k])
             self.active_links.add(k)
         # elementary states
         if 'leaves' in plan:
@@ -218,7 +229,11 @@ def new_values(W, di, salt):
     n = d.size
     names = ['x', 'y', 'k'] if di == 0 else ['u', 'w']
     out = {}
+    present = set(c.label for c in d.main_components)
     for nm in names:
+        if nm not in present:
+            rng.random()
+            continue
         if rng.random() < 0.7 or nm == names[0]:
             vals = np.array([rng.choice([-2.0, -1.0, 0.0, 0.5, 1.0, 2.0, 3.0, 4.0, 6.0]) for _ in range(n)])
             if nm == 'k':
@@ -321,21 +336,25 @@ def apply_mutation(W, op):
             except Exception:
                 pass
     elif k == 'add_link':
-        if op[1] == 'pixel':
-            if W.pixel_links is not None and 'pixel' not in W.active_links:
-                W.dc.add_link(W.pixel_links)
-                W.active_links.add('pixel')
-        elif op[1] not in W.active_links:
+        if op[1] in W.links and op[1] not in W.active_links:
             W.dc.add_link(W.links[op[1]])
             W.active_links.add(op[1])
     elif k == 'remove_link':
-        if op[1] == 'pixel':
-            if 'pixel' in W.active_links:
-                W.dc.remove_link(W.pixel_links)
-                W.active_links.discard('pixel')
-        elif op[1] in W.active_links:
+        if op[1] in W.active_links:
             W.dc.remove_link(W.links[op[1]])
             W.active_links.discard(op[1])
+    elif k == 'remove_component':
+        d = W.datas[op[1]]
+        cids = [c for c in d.main_components + d.derived_components if c.label == op[2]]
+        if cids:
+            d.remove_component(cids[0])
+    elif k == 'replace_component':
+        d = W.datas[op[1]]
+        cids = [c for c in d.main_components if c.label == op[2]]
+        if cids:
+            rng = C1.case_rng(W.key, 'replace', op[1], op[2], op[3])
+            vals = np.array([rng.choice([-2.0, -1.0, 0.0, 0.5, 1.0, 2.0, 3.0, 4.0, 6.0]) for _ in range(d.size)]).reshape(d.shape)
+            d.add_component(vals, cids[0])
     elif k == 'replace_state':
         W.add_tree(op[2], attach_to=op[1])
     else:
@@ -365,7 +384,8 @@ class isolated_caches:
         return False
 
 
-MUTATIONS = ('update_components', 'update_values', 'move_to', 'setattr', 'add_link', 'remove_link', 'replace_state')
+MUTATIONS = ('update_components', 'update_values', 'move_to', 'setattr', 'add_link', 'remove_link', 'replace_state',
+             'remove_component', 'replace_component')
 
 
 def fresh_world(case, upto):
@@ -597,14 +617,18 @@ def run_history(R, case, ctab, check_fresh=True):
                         pending_setattr[id(l)] = True
             elif op[0] in ('add_link', 'remove_link'):
                 # adding a link that is active / removing one that is not does nothing at all
-                effective = ((op[1] not in W.active_links and (op[1] != 'pixel' or W.pixel_links is not None)) if op[0] == 'add_link'
-                             else op[1] in W.active_links)
+                effective = ((op[1] in W.links and op[1] not in W.active_links) if op[0] == 'add_link' else op[1] in W.active_links)
                 if effective:
                     mops.append(['link', 6 if op[0] == 'add_link' else 7])
                     if op[1] == 'pixel':
                         mops.append(['link', 8])
             elif op[0] == 'replace_state':
                 mops.append(['noop', 9])
+            elif op[0] in ('remove_component', 'replace_component'):
+                dd = W.datas[op[1]]
+                pool = dd.main_components + (dd.derived_components if op[0] == 'remove_component' else [])
+                if any(c.label == op[2] for c in pool):
+                    mops.append(['values', 10 if op[0] == 'remove_component' else 11])
             if listener:
                 listener.results = []
             try:
@@ -617,7 +641,7 @@ def run_history(R, case, ctab, check_fresh=True):
             for l in W.leaf_objects():
                 slot(l)
             # everything except attribute assignment drops the caches in the repaired code
-            if op[0] in ('update_components', 'update_values', 'move_to', 'add_link', 'remove_link') and mops:
+            if op[0] in ('update_components', 'update_values', 'move_to', 'add_link', 'remove_link', 'remove_component', 'replace_component') and mops:
                 if policy_clears_all(op[0]):
                     pending_setattr.clear()
             for m in mops:
@@ -649,6 +673,10 @@ def run_history(R, case, ctab, check_fresh=True):
                     lver[0] += 1
                     if not stop_model[0]:
                         model_ops.append((m[1], []))
+                elif m[0] == 'values':
+                    dver[0] += 1
+                    if not stop_model[0]:
+                        model_ops.append((m[1], []))
                 elif not stop_model[0]:
                     model_ops.append((m[1], []))
             continue
@@ -676,7 +704,7 @@ _POLICY = {}
 
 
 def policy_clears_all(kind):
-    p = {'update_components': 0, 'update_values': 1, 'move_to': 3, 'add_link': 4, 'remove_link': 4}[kind]
+    p = {'update_components': 0, 'update_values': 1, 'move_to': 3, 'add_link': 4, 'remove_link': 4, 'remove_component': 6, 'replace_component': 7}[kind]
     return _POLICY.get(p, (None, None))[0] == 2
 
 
@@ -776,7 +804,11 @@ def random_history(rng, W, n):
             t = tgt()
             ops.append(('setattr', t if t[0] == 'leaf' else ('tree', t[1], rng.randrange(12)), rng.randrange(6)))
         elif k < 0.94:
-            ops.append((rng.choice(['add_link', 'add_link', 'remove_link']), rng.choice([0, 1, 2, 'pixel'])))
+            if rng.random() < 0.15:
+                ops.append(('remove_component', 0, rng.choice(['y', 'k', 'z'])) if rng.random() < 0.4 else
+                           ('replace_component', rng.choice([0, 0, 1]), rng.choice(['x', 'y', 'u']), rng.randrange(100)))
+            else:
+                ops.append((rng.choice(['add_link', 'add_link', 'remove_link']), rng.choice([0, 1, 2, 'pixel', 'chainA', 'chainB', 'direct1', 0, 'chainA', 'chainB'])))
         else:
             grp = [j for j in range(ntrees) if W.attached[j]]
             ops.append(('replace_state', rng.choice(grp) if grp and rng.random() < 0.7 else -1,
@@ -939,11 +971,48 @@ def stream_links(R, ctab):
                    'links, update_components on e); the identity link is active at the start' % (len(cases), L))
 
 
+def reroute_plan(direct_active):
+    """e.u is reachable from d through two routes that give DIFFERENT values: d.x -> (x10) -> f.z -> e.u and a direct link d.x -> e.u"""
+    from glue.core import subset as S
+    base = exhaustive_plan()
+
+    def leaves(W):
+        d0, d1 = W.d0, W.d1
+        return [S.InequalitySubsetState(d1.id['u'], 25, operator.gt), S.InequalitySubsetState(d0.id['x'], 100, operator.gt),
+                S.RangeSubsetState(15, 45, d1.id['u'])]
+    return dict(base, leaves=leaves, links0=['chainA', 'chainB'] + (['direct1'] if direct_active else []),
+                specs=[('or', ('leaf', 0), ('leaf', 1)), ('not', ('leaf', 0)), ('multi', [('leaf', 2), ('leaf', 1)])],
+                attached=[True, False, False])
+
+
+def stream_reroute(R, ctab):
+    alphabet = [('eval', ('tree', 0, 0), 0, 0, 'subset', FKW), ('eval', ('tree', 1, 0), 0, 0, 'state', FPOS), ('eval', ('tree', 2, 0), 0, 0, 'data', FKW),
+                ('add_link', 'direct1'), ('remove_link', 'direct1'), ('add_link', 0), ('remove_link', 0), ('remove_link', 'chainB'), ('add_link', 'chainB')]
+    L = R.pick(3, 4)
+    total = 0
+    for direct_active in (False, True):
+        plan = reroute_plan(direct_active)
+        hs = []
+        for n in range(2, L + 1):
+            for h in itertools.product(alphabet, repeat=n):
+                if h[-1][0] == 'eval' and any(o[0] != 'eval' for o in h):
+                    hs.append(h)
+        cases = [{'seed': 0, 'stream': 'exhaustive-reroute-%d' % int(direct_active), 'i': 0, 'plan': plan, 'ops': list(h), 'listener': []} for h in hs]
+        total += len(cases)
+        for k in range(0, len(cases), 300):
+            process(R, cases[k:k + 300], ctab, 'exhaustive-reroute')
+    R.stream('exhaustive-reroute', cases=total, exhaustive=True,
+             bound='all histories of length <= %d with a mutation that end in an evaluation, on two worlds (direct one-way link active at the start or not; the two-hop '
+                   'x10 route always active at the start): 3 evaluations on d of selections over e.u, 6 link mutations (add / remove the direct one-way link, the two-way '
+                   'identity link, the second hop): the link manager re-routes e.u without changing which attributes are derivable' % L)
+
+
 def stream_exhaustive(R, ctab):
     plan = exhaustive_plan()
     alphabet = [('eval', ('tree', 0, 0), 0, 0, 'data', FKW), ('eval', ('tree', 1, 0), 0, 0, 'state', FPOS), ('eval', ('tree', 2, 0), 0, 0, 'subset', FKW),
                 ('update_components', 0, 1), ('update_values', 0, 2, True), ('move_to', ('tree', 1, 0), 1.0), ('move_to', ('tree', 2, 1), 1.0),
-                ('setattr', ('tree', 0, 1), 0), ('remove_link', 0), ('add_link', 0)]
+                ('setattr', ('tree', 0, 1), 0), ('remove_link', 0), ('add_link', 0),
+                ('remove_component', 0, 'y'), ('replace_component', 0, 'x', 3)]
     L = R.pick(3, 4)
     hs = []
     for n in range(1, L + 1):
@@ -951,7 +1020,7 @@ def stream_exhaustive(R, ctab):
             if any(o[0] == 'eval' for o in h) and h[-1][0] == 'eval':
                 hs.append(h)
     full = len(hs)
-    limit = R.pick(900, 20000)
+    limit = R.pick(900, 3500)
     if len(hs) > limit:
         hs = C1.case_rng(0, 'c05-exh').sample(hs, limit)
     cases = [{'seed': 0, 'stream': 'exhaustive', 'i': 0, 'plan': plan, 'ops': list(h),
@@ -960,12 +1029,12 @@ def stream_exhaustive(R, ctab):
         process(R, cases[k:k + 300], ctab, 'exhaustive')
     R.stream('exhaustive', cases=len(cases), exhaustive=len(cases) == full,
              bound='%d of the %d histories of length <= %d that end in an evaluation, over 3 evaluations ((x>1)&(x<3) attached, ~range free, '
-                   'multi-or(roi, cross-dataset inequality) attached) and 7 mutations (update_components, update_values_from_data with a new shape, move_to on two '
+                   'multi-or(roi, cross-dataset inequality) attached) and 9 mutations (remove_component y, add_component replacing x, update_components, update_values_from_data with a new shape, move_to on two '
                    'selections, a setter inside a composite, remove/add the identity link, active at the start); a hub listener evaluates during every values update' % (len(cases), full, L))
 
 
 def stream_random(R, ctab):
-    n = R.pick(220, 2500)
+    n = R.pick(220, 1600)
     cases = []
     for i in range(n):
         rng = C1.case_rng(R.seed, 'c05-random', i, 'ops')
@@ -1000,21 +1069,23 @@ def stream_policy(R, ctab):
     _POLICY = {}
     if not R.model_available:
         return
-    outs = R.model([enc((3, [p])) for p in range(6)])
-    names = ['update_components', 'update_values_from_data', 'attribute assignment', 'move_to', 'link change', 'pixel alignment change']
+    outs = R.model([enc((3, [p])) for p in range(8)])
+    names = ['update_components', 'update_values_from_data', 'attribute assignment', 'move_to', 'link change', 'pixel alignment change',
+             'remove_component', 'add_component replacing an attribute']
     for p, o in enumerate(outs):
         if tag(o) == 1:
-            _POLICY[p] = (kids(o)[0][0], bool(kids(o)[1][0]))
+            _POLICY[p] = (kids(o)[0][0], bool(kids(o)[1][0]), bool(kids(o)[2][0]))
         R.count(('policy', p), nontrivial=True, stream='policy')
     R.note('cache-clearing policy regenerated from the source: ' + ', '.join(
-        '%s: %s' % (n, ('scope %d %s the broadcast' % (_POLICY[p][0], 'before' if _POLICY[p][1] else 'AFTER')) if p in _POLICY else 'nothing cleared')
+        '%s: %s' % (n, ('scope %d %s the broadcast%s' % (_POLICY[p][0], 'before' if _POLICY[p][1] else 'AFTER',
+                                                          '' if _POLICY[p][2] else ' UNDER A CONDITION')) if p in _POLICY else 'nothing cleared')
         for p, n in enumerate(names)))
-    R.stream('policy', cases=6, exhaustive=True, bound='the six mutation paths')
+    R.stream('policy', cases=8, exhaustive=True, bound='the eight mutation paths')
 
 
 # ---- histogram viewer layer state
 def stream_viewer(R):
-    n = R.pick(100, 800)
+    n = R.pick(100, 600)
     done = 0
     try:
         from glue.viewers.histogram.viewer import SimpleHistogramViewer
@@ -1126,6 +1197,7 @@ def run(R):
     stream_policy(R, ctab)
     stream_exhaustive(R, ctab)
     stream_links(R, ctab)
+    stream_reroute(R, ctab)
     stream_random(R, ctab)
     stream_viewer(R)
     C1.clear_all_caches()
@@ -1135,7 +1207,7 @@ def replay(R, case):
     ctab = class_table()
     stream_policy(R, ctab)
     out = {'case': case}
-    if case.get('stream') in ('exhaustive', 'exhaustive-links', 'c05-random'):
+    if case.get('stream') in ('exhaustive', 'exhaustive-links', 'exhaustive-reroute-0', 'exhaustive-reroute-1', 'c05-random'):
         c = dict(case)
         c['ops'] = [tuple(_tuplify(o)) for o in case['ops']]
         c['listener'] = [tuple(_tuplify(o)) for o in case.get('listener', [])]
@@ -1143,6 +1215,8 @@ def replay(R, case):
             c['plan'] = exhaustive_plan()
         if case['stream'] == 'exhaustive-links':
             c['plan'] = links_plan()
+        if case['stream'].startswith('exhaustive-reroute'):
+            c['plan'] = reroute_plan(case['stream'].endswith('1'))
         res = run_history(R, c, ctab)
         out['oracle'] = res['oracle']
         out['known_finding_candidates'] = [k[0] for k in res['known']]
